@@ -147,5 +147,9 @@ pub fn run(cli: Cli) -> ! {
     rep.set("frames_inside_connections", json!(a));
     rep.set("ordinals_inside_connections", json!(b));
     rep.assume("connection-level part: the real Connection over the virtual transport; frames are decoded by the harness's independent codec");
+    // the assembled router: stage-wise schedules of two clients and of the shutdown signal against the real Listener,
+    // and the application started by passage::start from a configuration read by Config::read()
+    crate::world::host(&rep, "C09", cli.tier.thorough());
+    crate::app::host(&rep, "C09", cli.tier.thorough());
     rep.finish()
 }
